@@ -704,7 +704,10 @@ def oracle_params(rng):
     if rng.random() < 0.3:
         d['LANGUAGE'] = rng.choice(['en', 'de-CH'])
     if rng.random() < 0.25:
-        d['X-P'] = rng.choice(['a b', 'x:y', 'p,q', 'semi;colon', 'plain', "it's", ''])
+        d['X-P'] = rng.choice(['a b', 'x:y', 'p,q', 'semi;colon', 'plain', "it's", '', 'tab\there', '\tlead', 'trail\t',
+                               '\u00fcml\u2713', 'a^b', 'a=b', 'sp  ace', '\U0001f600'])
+    if rng.random() < 0.1:
+        d[rng.choice(['CN', 'X-TAB', 'x-9', 'X.Y'])] = rng.choice(['Doe\tJohn', 'a\tb,c', 'x y', 'z'])
     if rng.random() < 0.1:
         d['x-list'] = ['one', 'two,2']
     if rng.random() < 0.05:
@@ -780,6 +783,13 @@ def rand_supply(rng, name):
             r[rng.choice(['BYHOUR', 'BYMINUTE', 'BYSECOND'])] = rng.choice([0, 0, 12, [0], [0, 30]])
         if rng.random() < 0.3:
             r['INTERVAL'] = rng.randint(1, 4)
+        # every integer-valued BYxxx part of RFC 5545 3.3.10, signed where the grammar allows a sign
+        for part, lo, hi in (('BYWEEKNO', 1, 53), ('BYMONTHDAY', 1, 31), ('BYYEARDAY', 1, 366), ('BYSETPOS', 1, 366), ('BYMONTH', 1, 12)):
+            if rng.random() < 0.2:
+                vals = [rng.randint(lo, hi) * (1 if part == 'BYMONTH' or rng.random() < 0.6 else -1) for _ in range(rng.randint(1, 3))]
+                r[part] = vals if rng.random() < 0.7 else vals[0]
+        if rng.random() < 0.15:
+            r['WKST'] = [rng.choice(['MO', 'SU', 'TH'])]
         return 'recur', r, ['RECUR']
     if t == 'BINARY':
         return 'binary', ''.join(rng.choice('abcXYZ 09') for _ in range(rng.randint(0, 9))).encode(), ['BINARY']
